@@ -138,6 +138,8 @@ def shift_spelling(rng):
     n = rng.choice([0, 0, 1, 1, 2, 3, 4, 5, 6, 9, 10, 11, 21, 22, 65, 130, 260])
     if rng.random() < 0.15:
         n = rng.randint(0, 260)
+    elif rng.random() < 0.1:
+        n = rng.choice([261, 275, 276, 277, 300, 365, 366, rng.randint(261, 366)])      # beyond a year's worth of business days
     form = rng.choice(["plain+", "plain-", "B+", "-B-"])
     if form == "plain+":
         return "%dB" % n, (lambda d, n=n: bshift(d, n, False, "")), "bplain+" + ("0" if n == 0 else "")
